@@ -125,10 +125,10 @@ WRITE_OPS = ['put_abs', 'put', 'insert_abs', 'insert', 'fill_region', 'fill', 'e
 
 
 @obligation(params=dict(op=Int(0, 11), a=Int(), b=Int(), c=Int(), d=Int(), **_STATE),
-            tags={2 + k: n for k, n in enumerate(WRITE_OPS)}, timeout=900, split=('op',), thorough=_THOROUGH,
-            note='cell-writing operations: exactly the documented cells change, the cursor, saved cursor and scroll '
+            tags={2 + k: n for k, n in enumerate(WRITE_OPS)}, timeout=900, split=('op',), thorough=dict(_THOROUGH, params=dict(_THOROUGH['params'], asb=Bool())),
+            note='(thorough: the character also given as a byte) cell-writing operations: exactly the documented cells change, the cursor, saved cursor and scroll '
                  'region do not')
-def W1_writes(op, a, b, c, d, cr, cc, rs, re, sr, sc, shape=0):
+def W1_writes(op, a, b, c, d, cr, cc, rs, re, sr, sc, shape=0, asb=False):
     _set_shape(pick(shape, 0, 4))
     if _off_screen(cr, cc, rs, re, sr, sc):
         return SKIP
@@ -136,6 +136,15 @@ def W1_writes(op, a, b, c, d, cr, cc, rs, re, sr, sc, shape=0):
     s = mk_screen(cr, cc, rs, re, sr, sc)
     g = ref_grid()
     X = 'X'
+    if asb:
+        # the same operations with the character given as a byte: it lands in the grid as the text character
+        real = s
+
+        class _B:
+            def __getattr__(self, name):
+                f = getattr(real, name)
+                return lambda *args: f(*[(b'X' if (type(v) is str and v == 'X') else v) for v in args])
+        s = _B()
     if op == 0:
         s.put_abs(a, b, X)
         g[clamp(a, 1, ROWS) - 1][clamp(b, 1, COLS) - 1] = X
@@ -182,6 +191,8 @@ def W1_writes(op, a, b, c, d, cr, cc, rs, re, sr, sc, shape=0):
     else:
         s.erase_screen()
         fill_ref(g, 1, 1, ROWS, COLS, ' ')
+    if asb:
+        s = real
     if not shape_ok(s) or not same(s, g):
         return 0
     if (s.cur_r, s.cur_c, s.cur_saved_r, s.cur_saved_c, s.scroll_row_start, s.scroll_row_end) != (cr, cc, sr, sc, rs, re):
@@ -395,6 +406,7 @@ def dry_runs():
         one = dict(cr=1, cc=1, rs=1, re=1, sr=1, sc=1)
         for op in range(12):
             yield 'W1_writes', dict(op=op, a=2, b=9, c=-1, d=2, shape=shape, **one)
+            yield 'W1_writes', dict(op=op, a=1, b=1, c=0, d=7, shape=shape, asb=True, **one)
         for op in range(7):
             yield 'W3_scroll', dict(op=op, a=0, b=9, shape=shape, **one)
         for op in range(6):
